@@ -351,6 +351,11 @@ static CONFIG: LazyLock<RwLock<Config>> = LazyLock::new(|| RwLock::new(Config::d
 /// # Panics
 /// This function panics if the underlying lock has been poisoned and might panic if the global config is already held by the current thread.
 pub fn global_config() -> RwLockReadGuard<'static, Config> {
+    #[cfg(zarrs_verif)]
+    crate::storage::verif_hooks::emit(
+        "config.read",
+        &[u64::from(CONFIG.try_write().is_ok())],
+    );
     CONFIG.read().unwrap()
 }
 
@@ -359,6 +364,11 @@ pub fn global_config() -> RwLockReadGuard<'static, Config> {
 /// # Panics
 /// This function panics if the underlying lock has been poisoned and might panic if the global config is already held by the current thread.
 pub fn global_config_mut() -> RwLockWriteGuard<'static, Config> {
+    #[cfg(zarrs_verif)]
+    crate::storage::verif_hooks::emit(
+        "config.write",
+        &[u64::from(CONFIG.try_write().is_ok())],
+    );
     CONFIG.write().unwrap()
 }
 
